@@ -93,7 +93,7 @@ where T::NotNan: Sized {
                     });
                     let nonmissing: Vec<String> = { let mut v: Vec<String> = input.iter().filter(|e| !e.is_nan()).map(|e| e.key()).collect(); v.sort(); v };
                     match res {
-                        Err(m) => rep.fail(cfg, &case, "remove_nan_mut panicked", json!({"panic": m})),
+                        Err(m) => rep.fail_p(cfg, &case, "C04,C14", "remove_nan_mut panicked", json!({"panic": m})),
                         Ok((n, addrs)) => {
                             let mut problems = vec![];
                             if n != nonmissing.len() { problems.push(format!("length {} but {} non-missing elements", n, nonmissing.len())); }
@@ -119,7 +119,10 @@ where T::NotNan: Sized {
                             let mut a: Vec<&String> = in_phys.iter().map(|q| &after[*q]).collect(); a.sort();
                             if a != b { problems.push("the view no longer holds the multiset it held before".to_string()); }
                             if !problems.is_empty() {
-                                rep.fail(cfg, &case, &problems[0], json!({"problems": problems, "input": input.iter().map(|e| e.key()).collect::<Vec<_>>()}));
+                                // C03 is concerned by frame / multiset / aliasing problems only, C20 by aliasing (layout dependence)
+                                let c03 = problems.iter().any(|p| p.contains("outside") || p.contains("multiset") || p.contains("aliases"));
+                                let props = if c03 { "C04,C03,C20,C14" } else { "C04,C14,C20" };
+                                rep.fail_p(cfg, &case, props, &problems[0], json!({"problems": problems, "input": input.iter().map(|e| e.key()).collect::<Vec<_>>()}));
                             }
                         }
                     }
@@ -141,13 +144,13 @@ fn idempotence(cfg: &Cfg, rep: &mut Report, maxlen: usize) {
         let ra: Vec<u64> = ndarray_stats::verif_hooks::remove_nan_mut(a.view_mut()).iter().map(|x| x.to_bits()).collect();
         let rb: Vec<u64> = ndarray_stats::verif_hooks::remove_nan_mut(b.view_mut()).iter().map(|x| x.to_bits()).collect();
         if ra != rb || a.iter().map(|x| x.to_bits()).collect::<Vec<_>>() != b.iter().map(|x| x.to_bits()).collect::<Vec<_>>() {
-            rep.fail(cfg, &case, "remove_nan_mut is not deterministic", json!({}));
+            rep.fail_p(cfg, &case, "C04", "remove_nan_mut is not deterministic", json!({}));
         }
         let n1 = ra.len();
         let snapshot: Vec<u64> = a.iter().map(|x| x.to_bits()).collect();
         let again: Vec<u64> = ndarray_stats::verif_hooks::remove_nan_mut(a.slice_mut(s![..n1])).iter().map(|x| x.to_bits()).collect();
         if again != ra || a.iter().map(|x| x.to_bits()).collect::<Vec<_>>() != snapshot {
-            rep.fail(cfg, &case, "remove_nan_mut is not idempotent", json!({"first": ra, "second": again}));
+            rep.fail_p(cfg, &case, "C04", "remove_nan_mut is not idempotent", json!({"first": ra, "second": again}));
         }
         rep.eval(&case, len >= 2 && pat != 0);
     }}
